@@ -328,3 +328,78 @@ Lemma cookie_patterns_pinned :
   && (Wz.C13.Gen.cookie_unslash_re_flags =? 0) && (Wz.C13.Gen.cookie_re_flags =? 320)
   && (N.of_nat (length Wz.C13.Gen.cookie_re_text) =? 114) && (weighted_sum Wz.C13.Gen.cookie_re_text 1 =? 292951) = true.
 Proof. vm_compute. reflexivity. Qed.
+
+(* ------------------------------------------------------------------ Cache-Control, CSP, dates *)
+Lemma parse_cache_control_total v : exists d, parse_cache_control v = Ok d.
+Proof. unfold parse_cache_control. destruct v as [[|c r]|]; eauto. apply parse_dict_header_total. Qed.
+
+Lemma cc_get_e_total d key empty ty : exists v, cc_get_e d key empty ty = Ok v.
+Proof.
+  unfold cc_get_e. destruct ty; [eauto| |]; destruct (dict_get key d) as [[v|]|]; eauto.
+  unfold try_except. destruct (py_int v) as [z|e] eqn:E; cbn [bind]; [eauto|]. rewrite (py_int_err _ _ E). cbn [is_value_error]. eauto.
+Qed.
+
+Lemma parse_csp_e_total v : exists d, parse_csp_e v = Ok d.
+Proof. destruct v; cbn [parse_csp_e]; eauto. Qed.
+
+(* holds of the regenerated except clause (TypeError, ValueError, OverflowError) *)
+Lemma parse_date_over_total (D : Type) (parsedate : str -> res D) :
+  (forall s e, parsedate s = Err e -> is_type_error e || is_value_error e || is_overflow_error e = true) ->
+  forall v, exists o, parse_date_over parsedate v = Ok o.
+Proof.
+  intros Hc v. destruct v as [s|]; cbn [parse_date_over]; [|eauto]. unfold try_except.
+  destruct (parsedate s) as [d|e] eqn:E; cbn [bind]; [eauto|]. change (parse_date_catches e) with (is_type_error e || is_value_error e || is_overflow_error e).
+  rewrite (Hc s e E). eauto.
+Qed.
+
+(* ------------------------------------------------------------------ Request attributes *)
+Lemma wire_text_facts s : wire_text s = true -> forallb (fun c => c <? 256) s = true /\ mem LF s = false /\ valid_text s = true.
+Proof.
+  unfold wire_text, valid_text. induction s as [|c s IH]; [repeat split; reflexivity|]. cbn [forallb]. intro H. apply andb_prop in H.
+  destruct H as [Hc Hs]. destruct (IH Hs) as (I1 & I2 & I3). apply andb_prop in Hc. destruct Hc as [C1 C2]. apply negb_true_iff in C2.
+  rewrite C1, I1, I3. rewrite mem_cons, I2. rewrite N.eqb_sym, C2. unfold valid_cp. replace (c <? 55296) with true by lia. repeat split.
+Qed.
+
+Lemma wire_opt_facts o : wire_opt o = true -> wire_text (or_empty o) = true.
+Proof. destruct o; [exact (fun H => H)|reflexivity]. Qed.
+
+Ltac env_split H :=
+  unfold environ_ok in H; repeat (apply andb_prop in H; let H' := fresh "He" in destruct H as [H H']).
+
+Lemma request_args_total e : environ_ok e = true -> exists t, request_args e = Ok t.
+Proof.
+  intro H. env_split H. unfold request_args. destruct (wire_text_facts _ H) as (Hb & _).
+  destruct (query_text_total (e_query e) Hb) as [t Ht]. change args_decode_replace with true. rewrite Ht. cbn [bind].
+  rewrite request_args_checks_total. cbn [bind]. eauto.
+Qed.
+
+Lemma request_cookies_total e : environ_ok e = true -> exists l, request_cookies e = Ok l.
+Proof.
+  intro H. env_split H. unfold request_cookies. destruct (wire_text_facts _ (wire_opt_facts _ He7)) as (_ & Hl & Hv).
+  apply cookie_sansio_total; assumption.
+Qed.
+
+Lemma request_authorization_total e : exists a, request_authorization e = Ok a.
+Proof. unfold request_authorization. destruct (e_authorization e); [apply authorization_total|eauto]. Qed.
+
+Lemma request_range_total e : exists r, request_range e = Ok r.
+Proof. unfold request_range. destruct (e_range e); [apply parse_range_header_total|eauto]. Qed.
+
+Lemma request_if_match_total e : environ_ok e = true ->
+  (exists t, request_if_match e = Ok t) /\ (exists t, request_if_none_match e = Ok t).
+Proof.
+  intro H. env_split H. unfold request_if_match, request_if_none_match. split; apply parse_etags_total.
+  - apply (wire_text_facts _ (wire_opt_facts _ He4)).
+  - apply (wire_text_facts _ (wire_opt_facts _ He3)).
+Qed.
+
+Lemma request_content_length_total e : exists n, request_content_length e = Ok n.
+Proof. apply get_content_length_total. Qed.
+
+Lemma request_mimetype_params_total e : exists o, request_mimetype_params e = Ok o.
+Proof.
+  unfold request_mimetype_params. destruct (parse_options_header_total (or_empty (e_content_type e))) as [[h o] ->]. cbn [bind]. eauto.
+Qed.
+
+Lemma request_cache_control_total e : exists d, request_cache_control e = Ok d.
+Proof. apply parse_cache_control_total. Qed.
